@@ -2229,7 +2229,7 @@ def sub_derived(ctx):
 def sub_factory(ctx):
     keys = ["S00", "G01", "P10", "M00"] + ([] if ctx.quick else ["S01", "G00", "P00", "M10", "S10", "S11", "G10", "G11", "S20", "S21", "P20"])
     cases = []
-    for rep in range(ctx.n(1, 3)):
+    for rep in range(ctx.n(1, 2)):
         ps = ctx.rng.randrange(1 << 30)
         for key in keys:
             for m in sorted(FACTORIES):
@@ -2331,7 +2331,7 @@ def sub_process(ctx):
 
 def sub_history(ctx):
     cases = [{"seed": ctx.rng.randrange(1 << 30), "pool_seed": ctx.rng.randrange(1 << 30), "length": ctx.n(10, 40)}
-             for _ in range(ctx.n(40, 250))]
+             for _ in range(ctx.n(40, 180))]
     ctx.sample("history", cases[0])
     ctx.run_cases("history", chk_history, cases)
 
@@ -2925,7 +2925,9 @@ def run(ctx):
     ctx.boost = False
     if not ok2:
         ok, info = False, info2
-        ctx.boost = True          # widen the sweeps of the sub-checks that exercise the translated code: look harder for a failing input
+        # widen the random sweeps of the sub-checks that exercise the translated code (cache, loss): look harder for a failing input;
+        # the copy / getter / projection-dispatch tables have deterministic sub-checks of their own (sampling_copy, getters, algo)
+        ctx.boost = info2.get("theorem") not in ("C13_gen_copy_shares_no_mutable_member", "C13_gen_getters_are_pure_reads", "C13_gen_pgd_dispatch")
         ctx.note("regenerated-table obligations (coq/gen/C13_Equiv.v) not discharged: %s" % str(info2)[:400])
         ctx.note("translator tie broken: the random parts of the cache and loss sub-checks run with 3x their quick-tier sizes")
     if not ok:
